@@ -16,22 +16,25 @@ GRIDS = ("uniform", "rect", "quasi")
 
 def model_check(ctx):
     ctx.mc("GridEquiv", "MC_GridEquiv_q.cfg" if ctx.quick else "MC_GridEquiv_t.cfg", label="1-D lattices n<=4 (6), spacing d<=3 (4) units, basis + dense states: metric scale = 1, three runs equal")
-    ctx.mc_negative("GridEquiv", "MC_GridEquiv_neg.cfg")
+    ctx.mc_negative("GridEquiv", "MC_GridEquiv_neg.cfg")    # reference spacing without the Courant division
+    ctx.mc_negative("GridEquiv", "MC_GridEquiv_neg2.cfg")   # z origin of the uniform policy from the y cell count
     ctx.assumptions += [
         "tolerance 1e-11 of the largest value of each compared array pair (the descriptions may resolve the time step / edge coordinates with different round-off)",
+        "volumes have three different (even) axis lengths; slabs, sources and detectors are placed through physical coordinates on every axis "
+        "(RealCoordinateConstraint, partial_real_position) in half of the scenes, through grid coordinates in the others; the resolved grid slices of every "
+        "object are compared exactly, and a placement that fails under one description only is a violation",
         "even cell counts on every axis (QuasiUniformGrid requires them); spacings include values that are not representable with 14 decimals",
         "scenes are stepped eagerly with fdtdx.fdtd.forward.forward (record_detectors=True)",
     ]
 
 
-def _scene(rng, T):
-    shape = [rng.choice([6, 8]) for _ in range(3)]
+def _scene(rng, T, real):
+    shape = rng.sample([6, 8, 10], 3)           # three different axis lengths (even: QuasiUniformGrid requires it)
     bounds = {}
     for a, ax in enumerate("xyz"):
         r = rng.random()
         if r < 0.35:
             kmin = kmax = "pml"
-            shape[a] = 8
         elif r < 0.6:
             kmin = kmax = "periodic"
         else:
@@ -46,11 +49,15 @@ def _scene(rng, T):
     plo, phi = [0, 0, 0], list(shape)
     plo[pa] = rng.randrange(2, shape[pa] - 2)
     phi[pa] = plo[pa] + 1
-    dets = [{"kind": "field", "name": "fd", "lo": [1, 1, 1], "hi": [n - 1 for n in shape], "exact": True, "switch": {"interval": 3}},
+    dets = [{"kind": "field", "name": "fd", "lo": [1, 1, 1], "hi": [min(n - 1, 6) for n in shape], "exact": True, "switch": {"interval": 3}},
             {"kind": "energy", "name": "en", "lo": [1, 1, 1], "hi": [n - 1 for n in shape], "exact": True},
             {"kind": "poynting", "name": "pf", "lo": plo, "hi": phi, "axis": pa, "exact": True},
             {"kind": "phasor", "name": "ph", "lo": [2, 2, 2], "hi": [4, 4, 4], "exact": True, "wl": 400e-9}]
     res = rng.choice([25e-9, 1e-6 / 30, 1e-6 / 70, 40e-9, 1e-7 / 3])
+    if real:   # physical-coordinate placement on every axis, both APIs
+        slab["place"] = rng.choice(["real", "center"])
+        sources[0]["place"], sources[1]["place"] = "real", "center"
+        dets[0]["place"], dets[1]["place"], dets[2]["place"], dets[3]["place"] = "center", "real", "real", "center"
     return {"shape": shape, "T": T, "res": res, "cf": 0.99, "pml": 2, "bounds": bounds, "slabs": [slab], "sources": sources, "detectors": dets}
 
 
@@ -58,13 +65,22 @@ def gen_cases(ctx):
     rng = random.Random(ctx.seed * 32452843 + 38)
     ctx.exhaustive = False
     for n in range(4 if ctx.quick else 30):
-        yield {"id": f"scene{n}", "scene": _scene(rng, 10)}
+        real = n % 2 == 0
+        yield {"id": f"scene{n}-{'realcoords' if real else 'gridcoords'}", "scene": _scene(rng, 10, real)}
 
 
-def _arrays_of(last):
+def _arrays_of(last, obj):
     import numpy as np
 
-    out = [("E", np.asarray(last.fields.E)), ("H", np.asarray(last.fields.H))]
+    # resolved grid slices of every placed object (x1000: any difference of one cell exceeds the tolerance by far)
+    def okey(o):   # auto-generated names (Object_<counter>) differ from build to build: key those objects by role
+        if hasattr(o, "axis") and hasattr(o, "direction") and o.name.startswith("Object"):
+            return f"~{type(o).__name__}-{o.axis}{o.direction}"
+        return "~volume" if o.name.startswith("Object") else o.name
+
+    sl = [v for o in sorted(obj.objects, key=okey) for ax in o.grid_slice_tuple for v in ax]
+    out = [("placement succeeded", np.asarray([1000.0])), ("resolved grid slices of the objects", 1000.0 * np.asarray(sl, dtype=np.float64)),
+           ("E", np.asarray(last.fields.E)), ("H", np.asarray(last.fields.H))]
     for dn in sorted(last.detector_states):
         for k in sorted(last.detector_states[dn]):
             x = np.asarray(last.detector_states[dn][k])
@@ -81,7 +97,7 @@ def pairs_of(ref, other, ra, rb):
 
     pairs = []
     for (what, a), (_, b) in zip(ref, other):
-        s = RS.rel_scale(a, b)
+        s = 1.0 if what.startswith(("placement", "resolved")) else RS.rel_scale(a, b)
         pairs.append({"what": what, "ra": ra, "rb": rb, "a": RS.enc_real(a, s)[0], "b": RS.enc_real(b, s)[0] if a.shape == b.shape else []})
     return pairs
 
@@ -89,17 +105,31 @@ def pairs_of(ref, other, ra, rb):
 def observe(case):
     from harness import rel_scene as RS
 
-    runs, dts = {}, {}
+    runs, dts, failed = {}, {}, {}
     for g in GRIDS:
         sc = dict(case["scene"], grid=g)
-        obj, arrays, config = RS.build(sc)
+        try:
+            obj, arrays, config = RS.build(sc)
+        except Exception as e:   # placement refused under this description (e.g. an object pushed out of the volume)
+            failed[g] = f"{type(e).__name__}: {str(e)[:300]}"
+            continue
         last = None
         for _, a in RS.step_forward(arrays, obj, config, sc["T"], record_detectors=True):
             last = a
-        runs[g] = _arrays_of(last)
+        runs[g] = _arrays_of(last, obj)
         dts[g] = float(config.time_step_duration)
+    if len(failed) == len(GRIDS):
+        raise RuntimeError(f"scene cannot be placed under any grid description: {failed}")
+    if failed:   # equivalence broken already at placement: one description places the scene, another refuses it
+        ok = [g for g in GRIDS if g not in failed]
+        import numpy as np
+
+        for g in failed:
+            runs[g] = [("placement succeeded", np.asarray([0.0]))] + [(w, np.zeros_like(a)) for w, a in runs[ok[0]][1:]]
+            dts[g] = dts[ok[0]]
     pairs = pairs_of(runs["uniform"], runs["rect"], "UniformGrid", "RectilinearGrid") + pairs_of(runs["uniform"], runs["quasi"], "UniformGrid", "QuasiUniformGrid")
-    return {"id": case["id"], "tol": 10, "pairs": pairs, "res": case["scene"]["res"], "dt_rel_rect": abs(dts["rect"] / dts["uniform"] - 1), "dt_rel_quasi": abs(dts["quasi"] / dts["uniform"] - 1)}
+    return {"id": case["id"], "tol": 10, "pairs": pairs, "res": case["scene"]["res"], "dt_rel_rect": abs(dts["rect"] / dts["uniform"] - 1), "dt_rel_quasi": abs(dts["quasi"] / dts["uniform"] - 1),
+            "placement_failed": failed, "shape": "x".join(map(str, case["scene"]["shape"]))}
 
 
 def classify(rec, verdict):
